@@ -227,7 +227,14 @@ where
                     out.push(format!("{}", x));
                 }
             }
-            _ => {}
+            // nesting is part of the skeleton (a node that moves to another parent without changing the pre-order
+            // sequence must show): one closing mark per node that was listed
+            NodeEvent::Leave(RefNode::Locate(_)) => {}
+            NodeEvent::Leave(_) => {
+                if ws == 0 && ra == 0 {
+                    out.push(")".to_string());
+                }
+            }
         }
     }
     out
